@@ -30,10 +30,16 @@ def main():
     tier = args[args.index("--tier") + 1] if "--tier" in args else "quick"
     seed = args[args.index("--seed") + 1] if "--seed" in args else "0"
     diff = f"{MUT}/{name}.diff"
-    meta_in = json.load(open(f"{MUT}/{name}.json")) if os.path.exists(f"{MUT}/{name}.json") else {}
+    kept = f"{SEEDED}/{name}"
+    from_kept = not os.path.exists(f"{MUT}/{name}/demo_{name}.py")
+    if from_kept:  # the scratch worktree is gone: use the kept copy
+        diff = f"{kept}/patch.diff"
+        meta_in = json.load(open(f"{kept}/meta.json"))
+    else:
+        meta_in = json.load(open(f"{MUT}/{name}.json")) if os.path.exists(f"{MUT}/{name}.json") else {}
     prop = meta_in.get("property", name[:3])
     props = args[args.index("--props") + 1].split(",") if "--props" in args else [prop]
-    demo = f"{MUT}/{name}/demo_{name}.py"
+    demo = f"{kept}/demo_{name}.py" if from_kept else f"{MUT}/{name}/demo_{name}.py"
     out = {"name": name, "property": prop, "summary": meta_in.get("summary"), "needs": meta_in.get("needs"), "files": meta_in.get("files")}
 
     # 1. confirmation in a fresh scratch worktree
@@ -92,8 +98,9 @@ def main():
     # 3. keep it
     d = f"{SEEDED}/{name}"
     os.makedirs(d, exist_ok=True)
-    shutil.copy(diff, f"{d}/patch.diff")
-    shutil.copy(demo, f"{d}/demo_{name}.py")
+    if not from_kept:
+        shutil.copy(diff, f"{d}/patch.diff")
+        shutil.copy(demo, f"{d}/demo_{name}.py")
     prev = {}
     if os.path.exists(f"{d}/meta.json"):
         prev = json.load(open(f"{d}/meta.json"))
